@@ -56,11 +56,11 @@ pub fn run_case(c: &Case, r: &mut Report) {
                 let mut cfg = ParserCfg { footer: footer.clone(), assertion: ia.clone(), default_parser: *default_parser, ..Default::default() };
                 match pcfg {
                     1 => cfg.expected = vec![Claim::Aud("customers".into())],
-                    2 => cfg.validators = vec![VSpec { claim: Claim::Custom("k".into(), json!("dummy")), behave: VBehave::Accept, reg: VReg::ValidateClaim }],
-                    3 => cfg.validators = vec![VSpec { claim: Claim::Custom("absent".into(), json!("dummy")), behave: VBehave::Accept, reg: if *layer == Layer::Generic { VReg::ExtendOnly } else { VReg::ValidateClaim } }],
+                    2 => cfg.validators = vec![VSpec { claim: Claim::Custom("k".into(), json!("dummy")), behave: VBehave::Accept, reg: VReg::ValidateClaim, second: false }],
+                    3 => cfg.validators = vec![VSpec { claim: Claim::Custom("absent".into(), json!("dummy")), behave: VBehave::Accept, reg: if *layer == Layer::Generic { VReg::ExtendOnly } else { VReg::ValidateClaim }, second: false }],
                     _ => {
                         cfg.expected = vec![Claim::Custom("a".into(), json!(1))];
-                        cfg.validators = vec![VSpec { claim: Claim::Sub("dummy".into()), behave: VBehave::AcceptIfPresent, reg: VReg::ValidateClaim }];
+                        cfg.validators = vec![VSpec { claim: Claim::Sub("dummy".into()), behave: VBehave::AcceptIfPresent, reg: VReg::ValidateClaim, second: false }];
                         cfg.expected_via_extend = *layer == Layer::Generic;
                     }
                 }
@@ -159,6 +159,12 @@ fn hostile_payloads(rng: &mut Rng, thorough: bool) -> Vec<String> {
     }
     for k in ["exp", "nbf"] {
         for val in ["-1", "0", "1e99", "-1e99", "9223372036854775807", "-9223372036854775808", "18446744073709551615", "253402300800", "[[[[[[[[[[]]]]]]]]]]", "{\"exp\":{\"exp\":{}}}", "\"\"", "\" \"", "\"\\n\""] {
+            v.push(format!("{{\"{}\":{}}}", k, val));
+        }
+    }
+    // values of every JSON kind under the keys the configured parsers (cfg=1..4) look at
+    for k in ["a", "k", "aud", "sub", "absent"] {
+        for val in ["18446744073709551615", "9223372036854775808", "-9223372036854775809", "1.5", "-0.0", "1e308", "\"1\"", "[1]", "{\"a\":1}", "null", "true", "\"customers\"", "1"] {
             v.push(format!("{{\"{}\":{}}}", k, val));
         }
     }
@@ -304,9 +310,12 @@ pub fn build_cases(tier: &str, seed: u64, pools: &Pools) -> Vec<Case> {
                 // ... and through parsers that carry an expectation or validators (check_claim, validate_claim,
                 // extend_validation_claims, extend_check_claims): their claim lookups run on the same arbitrary content
                 let n = cases.len();
-                let cfgn = 1 + n % 4;
-                for (layer, dp) in [(Layer::Generic, false), (Layer::Batteries, n % 2 == 0)] {
-                    cases.push(Case::Token { p, layer, default_parser: dp, key: key.clone(), token: t.clone(), footer: None, ia: None, class: format!("authentic+hostile-payload+configured-parser cfg={}", cfgn) });
+                // short payloads meet all four configurations, long ones one of them
+                let cfgs: Vec<usize> = if payload.len() <= 200 { vec![1, 2, 3, 4] } else { vec![1 + n % 4] };
+                for cfgn in cfgs {
+                    for (layer, dp) in [(Layer::Generic, false), (Layer::Batteries, (n + cfgn) % 2 == 0)] {
+                        cases.push(Case::Token { p, layer, default_parser: dp, key: key.clone(), token: t.clone(), footer: None, ia: None, class: format!("authentic+hostile-payload+configured-parser cfg={}", cfgn) });
+                    }
                 }
             }
         }
